@@ -18,6 +18,8 @@ CONSTANTS
  DevNoAtomResname = FALSE
  DevOrderedPairs = FALSE
  DevGateOnce = TRUE
+ DevGateStopsAtIgnored = FALSE
+ DevSkipSameItp = FALSE
  DevGateBuildOnly = FALSE
  DevMissingCache = FALSE
  DevDegree = FALSE
